@@ -195,6 +195,34 @@ def blackbox(ctx):
                 s.verbose = vb
                 s.meta = {"text-boundaries": coin, "v": vb}
                 by_cb.setdefault(cb, []).append(s)
+    # fields longer than 64 KiB in a directory obfuscated with xor.dat (key lengths 8 and others): the whole field goes through the
+    # de-obfuscating reader in one request, far larger than its buffer
+    for k, (field, ln) in enumerate([("scriptsig", 65536), ("scriptpubkey", 65537), ("witness-item", 70000), ("scriptpubkey", 100000), ("scriptsig", 100000), ("witness-item", 131073)]):
+        coin = ["bitcoin", "litecoin"][k % 2]
+        blocks = GC.gen_chain(r, coin, 3, max_txs=1, max_io=1, auxpow_mix=False, segwit=False)
+        data = GC.rb(r, ln)
+        sig, spk, wit = b"\x01\x01", b"\x51", None
+        if field == "scriptsig":
+            sig = data
+        elif field == "scriptpubkey":
+            spk = data
+        else:
+            wit = (1, 1, [[data, b"\x02" + GC.rb(r, 32)]])
+        spent = blocks[0].txs[0]
+        blocks[1].txs.append(K.Tx([(spent.txid(), 0, sig, 5)], [(7, spk), (8, b"\x6a\x01\x41"), (9, GC.spk(r, coin, "p2pkh"))], segwit=wit))
+        blocks[2].txs.append(K.Tx([(blocks[1].txs[-1].txid(), 2, b"\x01\x01", 5)], [(3, GC.spk(r, coin, "p2sh"))]))
+        prev = blocks[0].hash()
+        for b in blocks[1:]:
+            b.prev = prev
+            b.merkle_root = None
+            prev = b.hash()
+        for cb in ("csvdump", "unspentcsvdump", "simplestats")[k % 3:k % 3 + 1] + ("balances",)[:k % 2]:
+            s = K.Scenario(coin=coin, callback=cb)
+            GC.simple_layout(s, blocks)
+            s.xorkey = [GC.rb(r, 8), GC.rb(r, 12), GC.rb(r, 31)][k % 3]
+            s.verify, s.start = (k % 2 == 0), (1 if k % 2 == 0 else 0)
+            s.meta = {"long-field-obfuscated": "%s %d" % (field, ln)}
+            by_cb.setdefault(cb, []).append(s)
     for cb, scns in by_cb.items():
         impl, model = bb.check(ctx, "adversarial-chains:" + cb, scns, comparators(cb))
         for s, res in zip(scns, impl):
